@@ -1863,6 +1863,11 @@ impl Db {
 		self.inner.store_err(Err(Error::Corruption(message.to_string())))
 	}
 
+	/// Id of the last log record applied to the tables.
+	pub fn verif_last_enacted(&self) -> u64 {
+		self.inner.last_enacted.load(Ordering::SeqCst)
+	}
+
 	/// (queued commits, queued bytes, logged-but-unapplied bytes, log files awaiting cleanup,
 	/// log files awaiting enactment, background error set, reindex possibly pending).
 	pub fn verif_pipeline_state(&self) -> (usize, usize, i64, usize, bool, bool, bool) {
